@@ -1,4 +1,5 @@
 pub mod emu;
+pub mod logctl;
 pub mod program;
 pub mod realbin;
 pub mod run;
